@@ -24,7 +24,7 @@ PROPS = {
     "C07": dict(engine="world", level="exploration"),
     "C12": dict(engine="world", level="exploration", hang_is_lockup=True),
     "C05": dict(engine="watcher", level="exploration"),
-    "C18": dict(engine="relay", level="exploration", race=True),
+    "C18": dict(engine="relay", level="exploration", race=True, inject=["wire/relay.go", "wire/cache.go", "wire/receiver.go"]),
     "C20": dict(engine="multi", level="exploration", race=True),
 }
 
@@ -54,8 +54,30 @@ class Harness(Exception):
     """exit-2 class trouble"""
 
 
-def build(engine, tmp, race=False):
+def instrumented_copy(tmp, files):
+    """scratch copy of the repository under test with automatically inserted yield points (cmd/yieldinject)"""
+    dst = os.path.join(tmp, "repo-inst")
+    if os.path.exists(dst):
+        return dst
+    p = subprocess.run(["rsync", "-a", "--exclude", ".git", repo_path().rstrip("/") + "/", dst + "/"], stdout=subprocess.PIPE, stderr=subprocess.STDOUT, text=True)
+    if p.returncode != 0:
+        raise Harness("copying the repository failed: " + p.stdout)
+    tool = os.path.join(tmp, "yieldinject")
+    p = subprocess.run([GO, "build", "-o", tool, "./cmd/yieldinject"], cwd=SIM, env=env_base(), stdout=subprocess.PIPE, stderr=subprocess.STDOUT, text=True)
+    if p.returncode != 0:
+        raise Harness("building yieldinject failed: " + p.stdout)
+    p = subprocess.run([tool] + [os.path.join(dst, f) for f in files if os.path.exists(os.path.join(dst, f))], stdout=subprocess.PIPE, stderr=subprocess.STDOUT, text=True)
+    if p.returncode != 0:
+        log(p.stdout)
+        raise Harness("yield injection failed")
+    log("instrumented copy: " + " ".join(l.split(": ")[1] for l in p.stdout.strip().splitlines() if ": " in l))
+    return dst
+
+
+def build(engine, tmp, race=False, inject=None):
     repo = repo_path()
+    if inject:
+        repo = instrumented_copy(tmp, inject)
     mod = open(os.path.join(SIM, "go.mod")).read()
     mod = re.sub(r"replace perun.network/go-perun => .*", "replace perun.network/go-perun => " + repo, mod)
     modfile = os.path.join(tmp, "go.mod")
@@ -378,7 +400,7 @@ def check_property(prop, tier, seed, workers, replay=None, budget_s=None, run_li
     t0 = time.time()
     tmp = tempfile.mkdtemp(prefix="verif-%s-" % prop, dir=os.environ.get("VERIF_TMP", "/var/tmp"))
     try:
-        binary = build(info["engine"], tmp)
+        binary = build(info["engine"], tmp, inject=info.get("inject"))
         if replay:
             replay = os.path.abspath(replay)
             rp = json.load(open(replay))
@@ -472,7 +494,7 @@ def check_property(prop, tier, seed, workers, replay=None, budget_s=None, run_li
         m = merge(summaries)
         extra = {}
         if info.get("race") and not viol_paths:
-            rb = build(info["engine"], tmp, race=True)
+            rb = build(info["engine"], tmp, race=True, inject=info.get("inject"))
             rplan = get_plan(rb, prop, tier)
             rl = max(50, plan["runs"] // 8)
             rs, rv, rc, rh = run_batch(rb, prop, tier, seed, tmp, rplan, known_regex, workers, budget_s, race=True, run_limit=rl)
